@@ -84,6 +84,11 @@ def run(tier, seed):
     cc = vlib.run_vh_sharded(['client-close', '-thruserv', srv, '-rounds', '6' if tier == "quick" else '30'], 3, timeout=900)
     for viol in cc['violations']:
         v.violation(viol['sig'], viol.get('replay'))
+    # the recipient's connection stalls until its queue at the hub has overflowed, then comes back while the author keeps
+    # sending (real Hub.SendTo): what is delivered is a subsequence of what was sent, in the author's order
+    ho = vlib.run_vh_sharded(['hub-order', '-rounds', '6' if tier == "quick" else '60'], 3, timeout=600)
+    for viol in ho['violations']:
+        v.violation(viol['sig'], viol.get('replay'))
     v.coverage = dict(states=r['distinct'], transitions=r['generated'], traces_validated_against_impl=res['behaviours'],
                       samples=res['samples'][:4],
                       tlc=dict(exhaustive=dict(config=SMALL, depth=depth, generated=r['generated'], distinct=r['distinct']),
